@@ -1015,7 +1015,9 @@ func (context *layoutContext) makeAllPages(rootBox bo.BlockLevelBoxITF, html *tr
 			resumeAt tree.ResumeStack
 			page     *bo.PageBox
 		)
-		if len(pages) == 0 || remakeState.ContentChanged || remakeState.PagesWanted {
+		// (i >= len(pages): a page that the previous round did not have, e.g. a page
+		// for footnotes reported by a last page that did not report any before)
+		if len(pages) == 0 || i >= len(pages) || remakeState.ContentChanged || remakeState.PagesWanted {
 			logger.ProgressLogger.Printf("Step 5 - Creating layout - Page %d", i+1)
 			// Reset remakeState
 			context.pageMaker[i].RemakeState = tree.RemakeState{}
